@@ -13,6 +13,20 @@ from pacti.iocontract import Var
 TAU = F(1, 10 ** 9)
 
 
+def _t(lin, c):
+    return ({k: F(v) for k, v in lin.items()}, F(c))
+
+
+# regression corpus: (wiring, c1, c2, vars_to_keep, simplify, tactics_order)
+CORPUS = [
+    # D11: tactic 4 refines an assumption into the variable-free '0 <= -1/2'; simplifying the guarantees in that context failed an assert
+    ("corpus:D11", {"a": [], "g": [_t({"y": -2}, 6), _t({"x": F(1, 2), "y": -1}, F(3, 2))], "i": ["x"], "o": ["y"]},
+     {"a": [_t({"y": F(-1, 2)}, 2), _t({"y": F(-1, 2)}, 1)],
+      "g": [_t({"v": -2, "y": 2}, -10), _t({"y": 2}, F(1, 2)), _t({"v": 2, "y": -2}, 12)], "i": ["y", "u"], "o": ["v"]},
+     ["v"], True, [4]),
+]
+
+
 def tactic_tag(stats):
     tags = set()
     for one in stats:
@@ -49,6 +63,8 @@ def check(ctx):
         keep_arg = rng.choice([None, keep]) if not keep else keep
         simplify = rng.random() < 0.6
         order = rng.choice(pc.ORDERS)
+        if k < len(CORPUS):
+            wiring, c1, c2, keep_arg, simplify, order = CORPUS[k]       # minimised failures of earlier runs go first
         k1, k2 = gen.mkcontract(c1), gen.mkcontract(c2)
         okind, v, calls = pp.observe(lambda: k1.compose_tactics(k2, keep_arg, simplify, None if order is None else list(order)))
         safe = pc.exact_safe_pair(c1, c2)
